@@ -15,6 +15,10 @@ CHECKS = {
    technique="same TLA+ Router spec and pipeline as C01; trace formulas Complete, LiteralFirst, OrderIndep (K registration orders per rule set, self-composition)",
    text="Same pipeline as C01; judged formulas: a strictly matching rule with convertible captures must lead to a dispatch, a literal spelling beats a wildcard/variable at the first differing segment, and all registration orders (services, methods, bindings; annotation or service config) give the same outcome.",
    note="Strict reading demands (documented characters, <=10 segments, convertible captures); precedence among wildcards unspecified. " + TB),
+ "C16": dict(engine="Grammar", level="model_checking", design="3.1, 6/C16",
+   technique="TLA+ grammar spec (Grammar.tla: declarative derivability + recursive-descent lexer model) checked by TLC; TLC-enumerated lexeme sequences, grammar-derived templates with all single-edit mutants and rule-level cases registered on real muxes; trace validated by TLC against RegTrace.tla and RouterTrace.tla",
+   text="TLC checks for every lexeme sequence up to a length bound that the lexer design accepts exactly the documented grammar; every generated template / mutant / rule case / name shape is registered on a fresh real Mux (empty or with a base service) under recover(), and TLC classifies each from the grammar (must-accept / must-reject / unspecified) and judges the observed outcome: valid accepted and then routed, invalid rejected with an error, no panic, base routes behave identically before and after.",
+   note="Unspecified (accept or reject, never crash): nested variables, '**' not last, digit-first words, message-typed variables, duplicate fields, '*'-kind overlaps and re-declared implicit paths. " + TB),
 }
 
 NOT_YET = {}
